@@ -83,6 +83,27 @@ SUMMARY = {
 "C18-s4": "[disguised] root_directory_length = meta_data_pos − root_directory_offset (relative 127 instead of the absolute P + 127); needs P ≠ 0",
 "C19-s4": "[disguised] parse_meta_data takes Option<Value>; the readers pass serde_json::from_reader(..)? unwrapped, so JSON null deserialises to None = empty map",
 "C20-s4": "[disguised] new offset_in_section(section, rel, msg) is called with header.leaf_directories_offset for tiles; needs a non-empty leaf section",
+"C01-s5": "[periphery] write_lat_lon truncates toward zero instead of rounding; needs a coordinate whose value·1e7 has a fractional part ≥ 0.5",
+"C02-s5": "[periphery] leaf pointers carry all_entries[0].tile_id instead of the chunk's first id; needs ≥ 2 leaves and an independent reader (the library's own walker is blind to it)",
+"C03-s5": "[periphery] opener reports center_zoom from header.min_zoom; needs an archive with center_zoom ≠ min_zoom (second attempt: the first one, a transposed get_tile(x,y,z), is kept as C07-s6)",
+"C04-s5": "[periphery] decoder clamps the entry count itself to MAX_PREALLOCATED_ENTRIES; needs one directory with > 65536 entries, save + reopen",
+"C05-s5": "[periphery] compress_async builds the zstd encoder for Brotli and vice versa; needs the async directory writer with Brotli or ZStd",
+"C06-s5": "[periphery] same patch as C05-s5, found independently: the async root is written with the wrong codec while the leaves (sync) are right; needs async + Brotli/ZStd",
+"C07-s5": "[periphery] get_tile_async passes tile_id(z, y, x); needs an async coordinate lookup with x ≠ y",
+"C07-s6": "[periphery] get_tile passes tile_id(z, y, x) (seeded for C03, whose statement does not cover coordinate lookups; kept under C07); needs a sync coordinate lookup with x ≠ y",
+"C08-s5": "[periphery] range_end_inc: Excluded(val) ⇒ *val - 1; needs a filter range ending at exclusive 0 (overflow-checked build)",
+"C09-s5": "[periphery] #[deku(assert_eq = \"3\")] → #[deku(update = \"3\")] on spec_version; needs a header with a version byte ≠ 3",
+"C10-s5": "[periphery] calculate_hash hashes (len, first 1024 bytes); needs two equal-length contents > 1 KiB sharing their first KiB",
+"C11-s5": "[periphery] from_async_reader_partially forwards `..` instead of the caller's range; needs an async partial open with any proper sub-range",
+"C12-s5": "[periphery] write_directories_async passes None instead of the caller's overflow strategy; needs the async utility with an explicit start_size and an overflowing root",
+"C13-s5": "[second attempt] walker checks stream_position() == dir_offset + dir_length after a compressed directory; needs short reads + internal compression (the first attempt duplicated C07-s5 and was not schedule-dependent: dropped)",
+"C14-s5": "[periphery] decompress_async passes the input through for Compression::Unknown; needs the async decompress helper with Unknown",
+"C15-s5": "[periphery] stream_position().unwrap() in the leaf-pointer strategy; needs a spilling archive and a fault exactly at that position query",
+"C16-s5": "[periphery] Cargo.toml: serde_json feature preserve_order; needs two metadata keys inserted in different orders",
+"C17-s5": "[periphery] to_writer assembles the archive in a Cursor and io::copy's it to the output (header arrives first); needs an archive > 8 KiB and a crash after the first chunk",
+"C18-s5": "[periphery] async row of the writer template finishes the metadata encoder with flush instead of close; needs the async writer with gzip/brotli/zstd and a read-back from P",
+"C19-s5": "[periphery] compress_async passes the writer through for Compression::Unknown; needs an async write with internal compression Unknown",
+"C20-s5": "[periphery] Header::from_async_reader wraps the input in a BufReader (8 KiB read-ahead into the tile data); needs an async open of a small archive through a byte-tracking reader",
 }
 rows = []
 for d in sorted(os.listdir(os.path.join(V, "seeded"))):
